@@ -35,7 +35,8 @@ RULE = ("cases = (expression: 1-3 operands over 1-3 index variables, every varia
         "into the same output (2 x dense), coordinates 0, 9, 10, 11, 100; NON-INTEGRAL operand values v/4 (exact dyadic "
         "floats) compared through multilinearity: result * 4**k = the integer result on the values v; the tiling of a rank "
         "requested as `T / parts` (partition count) instead of splitUniform(step); two-kernel PIPELINES in which the output "
-        "object of the first kernel is operand 0 of the second, tiled / swizzled there). small scope "
+        "object of the first kernel is operand 0 of the second, tiled / swizzled there; operands re-ordered to the loop "
+        "order with Tensor.swapRanks (depth 0 and 1) BEFORE the tiling, non-square, instead of swizzleRanks after it). small scope "
         "(seed-independent): every expression shape x every loop order x every style on a fixed operand set, and "
         "every pair of leaf fibers over 3 coordinates x {absent, 0, 1, -1} for dot / element-wise / accumulate; every "
         "triple of leaf fibers over 2 coordinates for the right-nested / hoisted three-factor product; every 2-row 0/1 "
@@ -131,7 +132,10 @@ def _widen(rng, c):
     r = rng.random
     if r() < 0.3:
         var["fmtU"] = [[l for l in t if r() < 0.5] for t in opranks]
-    if zranks and r() < 0.15:
+        if "univ" in c:     # shape 101: keep a single uncompressed rank (nested ones cost 101**k iterations)
+            flat = [(i, l) for i, t in enumerate(var["fmtU"]) for l in t][:1]
+            var["fmtU"] = [[l for (j, l) in flat if j == i] for i in range(len(opranks))]
+    if zranks and r() < 0.15 and "univ" not in c:
         var["zU"] = [l for l in zranks if r() < 0.6]
     if c["declared"] and not c.get("tdiv") and r() < 0.2:
         var["shapes"] = [c["n"] + rng.choice([0, 2, 5]) for _ in range(k)]
@@ -149,6 +153,27 @@ def _widen(rng, c):
         var.pop("fdefault", None)   # a free fiber's own default IS its default: keep it 0 (sum of products)
     if var:
         c["var"] = var
+    return c
+
+
+def _with_swaps(c):
+    """re-order every operand to the loop order with Tensor.swapRanks (adjacent swaps, any depth) BEFORE
+    it is tiled, instead of one swizzleRanks after the tiling"""
+    order = c["order"]
+
+    def pos(v):
+        return min(order.index(l) for l in (2 * v, 2 * v + 1) if l in order)
+    for o in c["ops"]:
+        if o.get("prev") or len(o["ranks"]) < 2:
+            continue
+        cur, sw = list(o["ranks"]), []
+        for i in range(len(cur)):
+            for j in range(len(cur) - 1 - i):
+                if pos(cur[j]) > pos(cur[j + 1]):
+                    cur[j], cur[j + 1] = cur[j + 1], cur[j]
+                    sw.append(j)
+        if sw:
+            o["swaps"] = sw
     return c
 
 
@@ -361,6 +386,32 @@ def gen(seed, tier):
                 style = ("and", "lf", "tf", "lff")[(ib + ai + parts) % 4]
                 c = mk_case(2, [[0, 1], [1]], [0], order, [[1, step]], style, 4, [A, [[k, v + k] for k, v in b]], "tdiv-exh")
                 yield _to_tdiv(c, [[1, parts]])
+    # "swizzled to match" spelled with swapRanks, the tiling applied AFTER the swap to the new upper or the
+    # new lower rank: NON-SQUARE 2 x 4 operands, every pair of 0/1 rows (the last column need not hold the largest row)
+    si = 0
+    for i0, r0 in enumerate(rows4):
+        for i1, r1 in enumerate(rows4):
+            if not r0 and not r1:
+                continue
+            si += 1
+            if quick and si % 2:
+                continue
+            A = [[m, r] for m, r in enumerate((r0, r1)) if r]
+            b4 = [[k, k + 1] for k in range(4)]
+            for order, tiles in (([3, 2, 0], [[1, 1 + si % 4]]), ([3, 0, 2], [[1, 1 + (si // 2) % 4]]),
+                                 ([2, 1, 0], [[0, 1 + si % 2]]), ([1, 2, 0], [[0, 1 + si % 3]]), ([2, 0], [])):
+                c = mk_case(2, [[0, 1], [1]], [0], order, tiles, ("and", "lf", "tf")[si % 3], 4, [A, b4], "swap-exh",
+                            declared=si % 4 != 1)
+                yield _with_swaps(c)
+    # depth-1 swap of a 3-rank operand: Y_i = sum_jk T_ijk U_j V_k in loop order i, k, j with k or j tiled
+    for rep in range(6 if quick else 40):
+        T3 = _rand_tree(fixed, 3, 3, 0.3)
+        u, w = _rand_tree(fixed, 1, 3, 0.2), _rand_tree(fixed, 1, 3, 0.2)
+        for order, tiles in (([0, 4, 2], []), ([0, 5, 4, 2], [[2, 1 + rep % 3]]), ([0, 4, 3, 2], [[1, 1 + rep % 3]]),
+                             ([4, 0, 2], []), ([5, 4, 2, 0], [[2, 2]])):
+            c = mk_case(3, [[0, 1, 2], [1], [2]], [0], order, tiles, ("and", "lf", "andr")[rep % 3], 3, [T3, u, w],
+                        "swap-exh", declared=rep % 3 != 0)
+            yield _with_swaps(c)
     # pipelines: T = A x B (kernel 1, any style), then Y_m = sum_n T_mn C_n on the OUTPUT OBJECT of kernel 1,
     # untiled and with N tiled; B lacks a k-row the leader A has (also the last one visited)
     pB = [[[0, [[0, 1], [2, 2]]], [2, [[1, 1]]]], [[0, [[1, 1]]], [1, [[0, 2], [2, 1]]]]]
@@ -425,6 +476,8 @@ def gen(seed, tier):
         if c["tiles"] and rng.random() < 0.25:
             c = _to_tdiv(c, [[v, rng.randrange(1, n + 2)] for v, _ in c["tiles"] if rng.random() < 0.7])
         tv = set(v for v, _ in c["tiles"])
+        if rng.random() < 0.25:
+            c = _with_swaps(c)
         if c["out"] and not (tv & set(c["out"])) and rng.random() < 0.12:
             yield _rand_then(rng, c)        # the output object feeds a second kernel
             continue
@@ -601,6 +654,8 @@ def prepare(case, prev=None):
             T = ft.Tensor.fromFiber(rank_ids=[str(v) for v in op["ranks"]], fiber=f, shape=[sh] * d, default=0)
         else:       # no authoritative shape: the rank shapes (hence the active ranges) are estimated
             T = ft.Tensor.fromFiber(rank_ids=[str(v) for v in op["ranks"]], fiber=f, default=0)
+        for dpt in op.get("swaps") or []:       # re-ordering spelled with swapRanks, before the tiling
+            T = T.swapRanks(depth=dpt)
         for v, step in tiles:
             if v in op["ranks"] and v not in tdiv:
                 T = T.splitUniform(step, rankid=str(v))
@@ -724,7 +779,7 @@ def extra_evidence(results):
         e = (c["nvars"], tuple(tuple(sorted(o["ranks"])) for o in c["ops"]), tuple(c["out"]))
         exprs.add(e)
         progs.add((e, tuple(c["order"]), tuple(tuple(t) for t in c["tiles"]), c["style"]))
-        b = c["tag"] if c["tag"] in ("shape", "dot-exh", "ew-exh", "cancel-exh", "nest-exh", "hoist-exh", "estim-exh", "fmt-exh", "reuse-exh", "frac-exh", "tdiv-exh", "pipe-exh", "random") else "named"
+        b = c["tag"] if c["tag"] in ("shape", "dot-exh", "ew-exh", "cancel-exh", "nest-exh", "hoist-exh", "estim-exh", "fmt-exh", "reuse-exh", "frac-exh", "tdiv-exh", "pipe-exh", "swap-exh", "random") else "named"
         blocks[b] = blocks.get(b, 0) + 1
     return {"distinct_expressions": len(exprs), "distinct_programs": len(progs), "generator_blocks": blocks}
 
